@@ -36,7 +36,7 @@ pub fn run(ctx: &mut Ctx) {
     const RATES: [usize; 6] = [8000, 16000, 22050, 44100, 48000, 96000];
 
     // ---------------------------------------------------------------- constant F0
-    let n = ctx.n(300, 20000);
+    let n = ctx.n(1200, 20000);
     ctx.run_cases("constant", n, false, |ctx, rng, idx| {
         let rate = RATES[idx % 6];
         let fperiod = rng.range(40, 480);
@@ -46,9 +46,12 @@ pub fn run(ctx: &mut Ctx) {
             2 => rate as f64 / rng.range(2, 400) as f64, // integer period
             _ => rng.log_uniform(MIN_F0, rate as f64 / 2.0),
         };
-        let t0 = rate as f64 / clampf0(f0);
+        // T0 = rate / F0 with F0 = exp(log-F0) limited to 20 Hz..20 kHz, evaluated in f64 from
+        // the log-F0 value that is actually handed to the vocoder
+        let lf0 = f0.ln();
+        let t0 = rate as f64 / clampf0(lf0.exp());
         let frames = ((60.0 * t0 / fperiod as f64).ceil() as usize).clamp(4, 400);
-        let x = render(rate, fperiod, 0, &vec![f0.ln(); frames], &[]);
+        let x = render(rate, fperiod, 0, &vec![lf0; frames], &[]);
         let pos = pulse_positions(&x);
         let descr = |extra: J| J::obj().set("rate", rate).set("fperiod", fperiod).set("f0", f0).set("T0", t0).set("frames", frames).set("observed", extra);
         if pos.len() < 2 {
@@ -58,7 +61,13 @@ pub fn run(ctx: &mut Ctx) {
         if pos[0] != 0 {
             ctx.violation("first-pulse-late", descr(J::obj().set("first", pos[0])));
         }
-        let (lo, hi) = (t0.floor() as usize, t0.ceil() as usize);
+        // a period that is not exactly an integer but within 2 ulp of one may legitimately be
+        // evaluated on either side of it
+        let (lo, hi) = if t0.fract() == 0.0 {
+            (t0 as usize, t0 as usize)
+        } else {
+            ((t0 * (1.0 - 2.0 * f64::EPSILON)).floor() as usize, (t0 * (1.0 + 2.0 * f64::EPSILON)).ceil() as usize)
+        };
         for (gi, w) in pos.windows(2).enumerate() {
             let gap = w[1] - w[0];
             if gi == 0 && lo == hi && gap + 1 == lo {
@@ -66,7 +75,7 @@ pub fn run(ctx: &mut Ctx) {
                 ctx.violation("pulse-gap:first-gap-after-onset-is-T0-minus-1-for-integer-T0", descr(J::obj().set("gap", gap).set("T0", t0)));
                 continue;
             }
-            if gap != lo && gap != hi {
+            if gap < lo || gap > hi {
                 ctx.violation("pulse-gap", descr(J::obj().set("gap", gap).set("at", w[0]).set("allowed", J::Arr(vec![J::from(lo), J::from(hi)]))));
                 return;
             }
@@ -118,7 +127,7 @@ pub fn run(ctx: &mut Ctx) {
     });
 
     // ---------------------------------------------------------------- unvoiced noise statistics
-    let n = ctx.n(12, 200);
+    let n = ctx.n(24, 200);
     ctx.run_cases("noise", n, false, |ctx, rng, idx| {
         let rate = RATES[idx % 6];
         let fperiod = rng.range(40, 480);
@@ -150,7 +159,7 @@ pub fn run(ctx: &mut Ctx) {
     });
 
     // ---------------------------------------------------------------- glides and V/UV switches
-    let n = ctx.n(300, 20000);
+    let n = ctx.n(1200, 20000);
     ctx.run_cases("glide", n, false, |ctx, rng, idx| {
         let rate = RATES[idx % 6];
         let fperiod = rng.range(40, 480);
@@ -254,7 +263,7 @@ pub fn run(ctx: &mut Ctx) {
     });
 
     // ---------------------------------------------------------------- mixed excitation (low-pass stream)
-    let n = ctx.n(200, 15000);
+    let n = ctx.n(800, 15000);
     ctx.run_cases("mixed", n, false, |ctx, rng, idx| {
         let rate = RATES[idx % 6];
         let fperiod = rng.range(40, 240);
